@@ -87,6 +87,46 @@ fn backend<B: Backend>(opts: &Opts, rep: &mut Report) {
                     expect_err::<B>(rep, kind, "bitflip", &join_paserk(&hdr, &b), &s, &key_raw);
                 }
             }
+            // 1b. the same bit flipped in two bytes of the tag (cancels in an XOR-folding comparison),
+            //     tag words swapped, tag reversed
+            {
+                let tl = if B::VER % 2 == 1 { 48 } else { 32 };
+                let tag_start = if kind.is_pw() { body.len() - tl } else { 0 };
+                for i in 0..tl {
+                    for j in (i + 1)..tl {
+                        for bit in 0..8 {
+                            idx += 1;
+                            if !opts.mine(idx) {
+                                continue;
+                            }
+                            if slow && !((j - i) % 8 == 0 && bit % 4 == 0) {
+                                continue;
+                            }
+                            let mut b = body.clone();
+                            b[tag_start + i] ^= 1 << bit;
+                            b[tag_start + j] ^= 1 << bit;
+                            expect_err::<B>(rep, kind, "bitflip-pair-tag", &join_paserk(&hdr, &b), &s, &key_raw);
+                        }
+                    }
+                }
+                idx += 1;
+                if opts.mine(idx) {
+                    for (a, c) in [(0usize, 1usize), (0, tl / 8 - 1), (1, 2)] {
+                        let mut b = body.clone();
+                        for k in 0..8 {
+                            b.swap(tag_start + a * 8 + k, tag_start + c * 8 + k);
+                        }
+                        if b != body {
+                            expect_err::<B>(rep, kind, "tag-words-swapped", &join_paserk(&hdr, &b), &s, &key_raw);
+                        }
+                    }
+                    let mut b = body.clone();
+                    b[tag_start..tag_start + tl].reverse();
+                    if b != body {
+                        expect_err::<B>(rep, kind, "tag-reversed", &join_paserk(&hdr, &b), &s, &key_raw);
+                    }
+                }
+            }
             // 2. truncation to every length, extensions
             for l in 0..body.len() {
                 idx += 1;
